@@ -1,4 +1,5 @@
 import NgVerif.Proofs.CsegTotal
+import NgVerif.Proofs.CsegOwn
 import NgVerif.Model.Raw
 /-
   C10 — Decoders never misbehave on malformed chunk data.
@@ -25,6 +26,23 @@ theorem cseg_lut_slice_aligned (itemsize : Nat) (hi : itemsize = 4 ∨ itemsize 
     (Cseg.pySlice cbuf lutOff ((lutOff : Int) + (itemsize : Int) *
       min (P : Int) (((cbuf.length : Int) - (lutOff : Int)) / (itemsize : Int)))).length % itemsize = 0 :=
   Cseg.lut_slice_aligned itemsize hi cbuf hlen lutOff P hP
+
+/-- … and it never returns a WRONG array: for EVERY byte string, whenever the package's decoder
+    returns an array, a decoder written from the format specification returns that same array
+    from the same bytes (so "valid data is never mis-decoded", and anything it accepts is valid
+    in the specification's sense). -/
+theorem cseg_decoder_conforms_to_specification (itemsize : Nat) (hi : itemsize = 4 ∨ itemsize = 8)
+    (s : Cseg.Shape) (bk : Cseg.Blk3) (hbx : 0 < bk.bx) (hby : 0 < bk.by') (hbz : 0 < bk.bz)
+    (buf : Bytes) (a : List Nat) (h : Cseg.implDecode itemsize s bk buf = .ok a) :
+    Cseg.specDecode itemsize s bk buf = some a :=
+  Cseg.implDecode_conforms itemsize hi s bk hbx hby hbz buf a h
+
+/-- valid data is never rejected: the encoder's output is accepted (and decoded to the input) -/
+theorem cseg_decoder_accepts_encoder_output (itemsize : Nat) (hi : itemsize = 4 ∨ itemsize = 8)
+    (s : Cseg.Shape) (bk : Cseg.Blk3) (d : List Nat) (hbx : 0 < bk.bx) (hby : 0 < bk.by') (hbz : 0 < bk.bz)
+    (hvals : ∀ v ∈ d, v < 2 ^ (8 * itemsize)) (file : Bytes) (h : Cseg.encode itemsize s bk d = some file) :
+    ∃ a, Cseg.implDecode itemsize s bk file = .ok a :=
+  Cseg.implDecode_accepts_encode itemsize hi s bk d hbx hby hbz hvals file h
 
 /-- raw: exactly the byte strings of the right length are accepted, with the right number of
     values; everything else is InvalidFormatError. -/
